@@ -311,6 +311,10 @@ namespace Pistache
         std::size_t start_pos = data.find('[');
         if (start_pos != std::string::npos && end_pos != std::string::npos && start_pos < end_pos)
         {
+            // nothing may precede the opening bracket
+            if (start_pos != 0)
+                throw std::invalid_argument("Invalid address: unexpected text before '['");
+
             // only a port may follow the closing bracket
             if (end_pos + 1 < data.size() && data[end_pos + 1] != ':')
                 throw std::invalid_argument("Invalid address: unexpected text after ']'");
